@@ -360,6 +360,8 @@ class SVG:
         self.elements = []
 
     def _clone(self) -> "SVG":
+        # shape edits still pending in the cache belong to the document being copied
+        self._update_etree()
         return SVG(svg_root=copy.deepcopy(self.svg_root))
 
     def _elements(self) -> List[Tuple[etree.Element, Tuple[SVGShape, ...]]]:
@@ -1027,7 +1029,7 @@ class SVG:
 
     def remove_processing_instructions(self, inplace=False):
         if not inplace:
-            svg = SVG(copy.deepcopy(self.svg_root))
+            svg = self._clone()
             svg.remove_processing_instructions(inplace=True)
             return svg
 
